@@ -1856,7 +1856,7 @@ class UTPM(Ring, RawAlgorithmsMixIn):
         import algopy.exact_interpolation as exint
         d = y.data.shape[0]-1
         Gamma, rays = exint.generate_Gamma_and_rays(N,d)
-        tmp = numpy.dot(Gamma,y.data[d])
+        tmp = numpy.tensordot(Gamma, y.data[d], axes=(1,0))   # contract the direction axis, whatever the shape of the value
 
         if as_full_matrix == False:
             return tmp
